@@ -42,14 +42,11 @@ def run(tier, only=None, keep=False):
                     rdir = os.path.join(vrun.VERIF, 'replay', PROP); os.makedirs(rdir, exist_ok=True)
                     rfile = os.path.join(rdir, '%s-%s.py' % (name, hashlib.sha256(call.encode()).hexdigest()[:10]))
                     open(rfile, 'w').write('# property C19, contract %s violated by this call (returns %s disagreements with the reference model)\nimport os, sys\nsys.path.insert(0, %r)\nfrom contracts import *\nprint(%s)\n' % (name, val, os.path.dirname(CONTRACTS), call))
-                    kf = [k for k in known if k.get('status') == 'open' and k.get('property') == PROP and k.get('harness') == name]
-                    if kf:
-                        s['status'] = 'fault'; res['faults'] += 1
-                        res['lines'].append('MACHINERY-FAULT property=%s harness=%s: violation although known finding %s is excluded by precondition: %s' % (PROP, name, kf[0]['id'], call))
-                    else:
-                        s['status'] = 'violation'; res['violations'] += 1
-                        res['lines'].append('VIOLATION property=%s replay=%s' % (PROP, rfile))
-                        res['lines'].append('  contract=%s call=%s returned=%s' % (name, call, val))
+                    # the recorded known findings of this contract are excluded by precondition (kf_* argument False),
+                    # so whatever CrossHair reports here is a different violation
+                    s['status'] = 'violation'; res['violations'] += 1
+                    res['lines'].append('VIOLATION property=%s replay=%s' % (PROP, rfile))
+                    res['lines'].append('  contract=%s call=%s returned=%s' % (name, call, val))
             else:
                 s['status'] = 'inconclusive'; res['inconclusive'] += 1
                 res['lines'].append('INCONCLUSIVE property=%s harness=%s: CrossHair did not confirm within budget: %s' % (PROP, name, out.strip()[-200:]))
